@@ -474,6 +474,9 @@ class _Parser(object):
             for field in ('vars', 'in'):
                 if field not in value:
                     raise OperationFailure("Missing '{}' parameter to $let".format(field))
+            for field in value:
+                if field not in ('vars', 'in'):
+                    raise OperationFailure('Unrecognized parameter to $let: {}'.format(field))
             if not isinstance(value['vars'], dict):
                 raise OperationFailure('invalid parameter: expected an object (vars)')
             user_vars = {
@@ -1006,6 +1009,9 @@ class _Parser(object):
 
     def _handle_conditional_operator(self, operator, values):
         if operator == '$ifNull':
+            if isinstance(values, (list, tuple)) and len(values) < 2:
+                raise OperationFailure(
+                    '$ifNull needs at least two arguments, had: %d' % len(values))
             fields = values[:-1]
             if len(fields) > 1 and version.parse(mongomock.SERVER_VERSION) <= version.parse('4.4'):
                 raise OperationFailure(
@@ -1028,6 +1034,9 @@ class _Parser(object):
                 for field in ('if', 'then', 'else'):
                     if field not in values:
                         raise OperationFailure("Missing '%s' parameter to $cond" % field)
+                for field in values:
+                    if field not in ('if', 'then', 'else'):
+                        raise OperationFailure('Unrecognized parameter to $cond: %s' % field)
                 condition = values['if']
                 true_case = values['then']
                 false_case = values['else']
